@@ -195,6 +195,27 @@ def single_assignment_locals(f):
             if l is not None and l["k"] == "DeclRefExpr":
                 dirty.add(l["n"])
     out = {n: e for n, e in inits.items() if n not in dirty}
+    # locals declared without an initialiser and assigned exactly once (`void * obj; ... obj = p->next;`), never
+    # incremented or address-taken: they stand for that one value as well
+    assigns = {}
+    bad = set()
+    for x in f.walk():
+        k = x["k"]
+        if k == "BinaryOperator" and x["op"] == "=":
+            l = strip(x["c"][0])
+            if l is not None and l["k"] == "DeclRefExpr" and l.get("dk") == "Var":
+                assigns.setdefault(l["n"], []).append(x["c"][1])
+        elif k == "CompoundAssignOperator" or (k == "UnaryOperator" and x["op"] in ("post++", "pre++", "post--", "pre--", "&")):
+            l = strip(x["c"][0])
+            if l is not None and l["k"] == "DeclRefExpr":
+                bad.add(l["n"])
+    decl_noinit = {x["n"] for x in f.walk() if x["k"] == "VarDecl" and not (x.get("c") and x["c"][0] is not None) and not x.get("asz")}
+    params = {p[0] for p in f.params}
+    for n, rhss in assigns.items():
+        if len(rhss) == 1 and n in decl_noinit and n not in bad and n not in inits and n not in params:
+            # not self-referential
+            if not any(y["k"] == "DeclRefExpr" and y["n"] == n for y in walk(rhss[0])):
+                out[n] = rhss[0]
     f._sal = out
     return out
 
@@ -948,22 +969,35 @@ def edpe_blocks(f, dkey, v, extra_decide=None, start=None, blocked=(), edges_out
         if si is not None and si["k"] == "BinaryOperator" and si["op"] in ("==", "!=", "<", ">", "<=", ">=", "&&", "||") and \
                 any(key(x) in aliases for x in walk(si)):
             bool_alias[nm] = si
-    if bool_alias:
-        user_extra = extra_decide
+    user_extra = extra_decide
 
-        def extra_decide(tested, _u=user_extra):      # noqa: F811
-            t = strip(tested)
-            if t is not None and t["k"] == "DeclRefExpr" and t["n"] in bool_alias:
-                d = _cmp_decide(bool_alias[t["n"]], aliases, v)
-                if d is not None:
-                    return d
-            if t is not None and t["k"] == "UnaryOperator" and t["op"] == "!":
-                i = strip(t["c"][0])
-                if i is not None and i["k"] == "DeclRefExpr" and i["n"] in bool_alias:
-                    d = _cmp_decide(bool_alias[i["n"]], aliases, v)
-                    if d is not None:
-                        return not d
-            return _u(tested) if _u is not None else None
+    def extra_decide(tested, _u=user_extra, depth=0):      # noqa: F811
+        """Three-valued value of a (sub)condition: !, && and || are evaluated from their operands (operands are pure, so a
+        merged `a && b` value in a join block can be recomputed), boolean locals computed once from the dispatch value
+        decide like their initialiser, everything else goes to _cmp_decide and then to the caller's extra_decide."""
+        t = strip(tested)
+        if t is None or depth > 8:
+            return None
+        if t["k"] == "UnaryOperator" and t["op"] == "!":
+            r = extra_decide(t["c"][0], _u, depth + 1)
+            return None if r is None else not r
+        if t["k"] == "BinaryOperator" and t["op"] in ("&&", "||"):
+            x, y = extra_decide(t["c"][0], _u, depth + 1), extra_decide(t["c"][1], _u, depth + 1)
+            if t["op"] == "&&":
+                if x is False or y is False:
+                    return False
+                return True if (x is True and y is True) else None
+            if x is True or y is True:
+                return True
+            return False if (x is False and y is False) else None
+        if t["k"] == "DeclRefExpr" and t["n"] in bool_alias:
+            d = extra_decide(bool_alias[t["n"]], _u, depth + 1)
+            if d is not None:
+                return d
+        d = _cmp_decide(t, aliases, v)
+        if d is not None:
+            return d
+        return _u(tested) if _u is not None else None
     seen = set()
     st = [cfg.entry if start is None else start]
     while st:
